@@ -40,3 +40,81 @@ def generate(src):
     out = [pyrx.COQ_PRELUDE, "(* generated from src/WallGo/thermodynamics.py *)",
            tr.header()] + defs
     return "\n".join(out) + "\n", tr
+
+
+# ---------------------------------------------------------------------------------------
+# frame condition: who writes the modelled attributes
+# ---------------------------------------------------------------------------------------
+import ast
+import glob
+import os
+
+
+def _stores(node):
+    """all attribute-store targets (ast.Attribute) below `node`"""
+    out = []
+    for n in ast.walk(node):
+        tg = []
+        if isinstance(n, ast.Assign):
+            tg = n.targets
+        elif isinstance(n, (ast.AugAssign, ast.AnnAssign)):
+            tg = [n.target]
+        elif isinstance(n, (ast.For, ast.AsyncFor)):
+            tg = [n.target]
+        elif isinstance(n, (ast.With, ast.AsyncWith)):
+            tg = [i.optional_vars for i in n.items if i.optional_vars is not None]
+        elif isinstance(n, ast.Delete):
+            tg = n.targets
+        for t in tg:
+            for a in ast.walk(t):
+                if isinstance(a, ast.Attribute) and isinstance(a.ctx, (ast.Store, ast.Del)):
+                    out.append(a)
+    return out
+
+
+def frame_facts(repo_src_dir):
+    """Facts about every writer of the 16 modelled attributes in src/WallGo: the theorems are
+    about the state right after setExtrapolate, so no other method of the class, no subclass
+    and no other module may assign them."""
+    writers = {}
+    foreign, dynamic = [], []
+    files = sorted(glob.glob(os.path.join(repo_src_dir, "**", "*.py"), recursive=True))
+    for path in files:
+        rel = os.path.relpath(path, repo_src_dir)
+        tree = ast.parse(open(path).read())
+        for n in ast.walk(tree):
+            if isinstance(n, ast.Call) and isinstance(n.func, ast.Name) and \
+                    n.func.id in ("setattr", "delattr", "vars", "exec", "eval"):
+                dynamic.append("%s:%d: %s" % (rel, n.lineno, ast.unparse(n)[:60]))
+            if isinstance(n, ast.Attribute) and n.attr == "__dict__":
+                dynamic.append("%s:%d: %s" % (rel, n.lineno, ast.unparse(n)[:60]))
+        for cls in [c for c in ast.walk(tree) if isinstance(c, ast.ClassDef)]:
+            is_thermo = rel == "thermodynamics.py" and cls.name == "Thermodynamics"
+            derives = any("Thermodynamics" in ast.unparse(b) for b in cls.bases)
+            for f in cls.body:
+                if not isinstance(f, (ast.FunctionDef, ast.AsyncFunctionDef)):
+                    continue
+                for a in _stores(f):
+                    if a.attr in ATTRS and isinstance(a.value, ast.Name) and a.value.id == "self":
+                        if is_thermo:
+                            writers.setdefault(f.name, [])
+                            if a.attr not in writers[f.name]:
+                                writers[f.name].append(a.attr)
+                        elif derives:
+                            foreign.append("%s:%d: %s.%s writes self.%s" % (
+                                rel, a.lineno, cls.name, f.name, a.attr))
+        for a in _stores(tree):
+            if a.attr in ATTRS and not (isinstance(a.value, ast.Name) and a.value.id == "self"):
+                foreign.append("%s:%d: %s" % (rel, a.lineno, ast.unparse(a)))
+    q = lambda s: '"%s"' % s.replace('"', "'")
+    lst = lambda l: "[" + "; ".join(q(x) for x in l) + "]"
+    text = "\n".join([
+        "(* generated: writers of the modelled attributes of Thermodynamics in src/WallGo *)",
+        "From Coq Require Import String List. Import ListNotations. Open Scope string_scope.",
+        "Definition modelled_attrs : list string := %s." % lst(ATTRS),
+        "Definition writers : list (string * list string) := [%s]." % "; ".join(
+            "(%s, %s)" % (q(m), lst(a)) for m, a in sorted(writers.items())),
+        "Definition foreign_writers : list string := %s." % lst(sorted(set(foreign))),
+        "Definition dynamic_writes : list string := %s." % lst(sorted(set(dynamic))),
+        ""])
+    return text, dict(writers=writers, foreign=foreign, dynamic=dynamic, files=len(files))
